@@ -10,7 +10,7 @@ from ..engine import seq_iter, seq_shards
 ID = "C04"
 LEAN = True  # cases are distinct by construction; see engine.Acc
 RULE = (
-    "triples D1 . X . '\\n' . D2 with D1 in 4 well-formed documents ending in a complete block, D2 in 6 well-formed documents "
+    "triples D1 . X . '\\n' . D2 with D1 in 5 well-formed documents ending in a complete block, D2 in 6 well-formed documents "
     "starting with '@type{', X = every token sequence over the splitter alphabet up to the bound, plus every prefix and every "
     "single-token edit of 6 valid blocks; each text is parsed splitter-only and with the default stack and compared with the "
     "parses of D1 and D2 alone. Non-trivial = X non-empty and the parse of the triple has a failed block or more blocks than "
@@ -27,6 +27,7 @@ D1S = [
     '% head\n@string{d1s = "v"}',
     "@book{d1b, a = {x}}\n@comment{d1 {c}}",
     '@misc{d1c, n = d1s2 # "q"}\nfree text\n@comment{cc}\n@string{d1s2 = {w}}',
+    "@a{d1d, x = 1, x = 2, y = 3}\n@b{d1e, z = {1}}",
 ]
 D2S = [
     '@article{d2a, title = "T {"} x", pages = {1--2},}\n',
@@ -74,7 +75,7 @@ def bounds(tier):
         "x_max_len": 4 if tier == "quick" else 5,
         "d1": len(D1S),
         "d2": len(D2S),
-        "d1_d2_pairs_for_sequences": 9 if tier == "quick" else 24,
+        "d1_d2_pairs_for_sequences": 10 if tier == "quick" else 30,
         "x_block_prefixes_and_single_edits": len(X_BLOCKS),
         "routes": list(ROUTES),
     }
@@ -183,7 +184,7 @@ def check_triple(i, x, j, acc, case=None):
 def run_shard(shard, tier, acc):
     kind = shard[0]
     if kind == "seq":
-        # quick: every D1 with the first D2 and every D2 with the first D1 (8 pairs); thorough: the full 4 x 6 grid
+        # quick: every D1 with the first D2 and every D2 with the first D1 (8 pairs); thorough: the full 5 x 6 grid
         grid = [(i, j) for i in range(len(D1S)) for j in range(len(D2S)) if tier == "thorough" or i == 0 or j == 0]
         for toks in seq_iter(spaces.SIGMA_DOC, shard[1]):
             x = "".join(toks)
@@ -193,7 +194,7 @@ def run_shard(shard, tier, acc):
         for n in X_SIZES[tier]:
             x = X_FAMILIES[shard[1]](n)
             acc.count("xfam_cases")
-            for i in (0, 3):
+            for i in (0, 3, 4):
                 for j in (0, 1, 4, 5):
                     check_triple(i, x, j, acc, case={"d1": i, "xfam": [shard[1], n], "d2": j})
     elif kind == "xblock":
